@@ -1,7 +1,7 @@
 (* C02 — instantiation used by the correspondence check (depends on Model.v only). *)
 From Coq Require Import List ZArith NArith Bool.
 Import ListNotations.
-From Verif.C02 Require Export Model.
+From Verif.C02 Require Export Model Args.
 
 (* what the harness saw goja do *)
 Inductive ires := IVal (v : oval) | IThrow (v : oval) | IOther (k : N).
@@ -10,6 +10,7 @@ Definition iobs := (list oval * ires)%type.
 Inductive tcase :=
 | TFrag (place : N) (p : stmt) (o : iobs)         (* place: 0 global code, 1 function body, 2 eval code *)
 | TMeta (a b : list (list Z))                     (* metamorphic pair: observations of original and rewritten program *)
+| TArgs (init : list Z) (ops : list aop) (o : list Z)   (* mapped arguments object: operations and the events goja logged *)
 | TFail.
 
 Definition fuel : nat := 600.
@@ -82,6 +83,7 @@ Definition check_case (c : tcase) : bool :=
       | Some b => b && (if N.eqb place 0 then model_selfcheck p else true)
       end
   | TMeta a b => list_eqb (list_eqb Z.eqb) a b
+  | TArgs init ops o => list_eqb Z.eqb (args_model init ops) o
   | TFail => false
   end.
 
@@ -110,6 +112,7 @@ Definition skipped_ids := skipped_from 0%N.
 Inductive expectation :=
 | XFrag (s : obs) (s_unused_variant : obs) (selfcheck : bool)
 | XMeta (first_diff : nat)
+| XArgs (model_events : list Z)
 | XNone.
 
 Fixpoint first_diff (a b : list (list Z)) (i : nat) : nat :=
@@ -122,5 +125,6 @@ Definition expected (c : tcase) : expectation :=
   match c with
   | TFrag place p o => XFrag (run_env fuel p) (run_env_pm PUnused fuel p) (model_selfcheck p)
   | TMeta a b => XMeta (first_diff a b 0)
+  | TArgs init ops o => XArgs (args_model init ops)
   | TFail => XNone
   end.
